@@ -26,7 +26,7 @@ RULE = ("1- and 2-dimensional edges x flows of values inside, on the borders of 
 ASSUMPTIONS = [
     "the private copy of the analysis is a fresh FillComputeSeq built from the same recipe, filled with deep copies of the cell's sub-flow (filling stops at LenaStopFill)",
     "context.variable 'describing the argument variable' is taken to be what the argument variable itself writes when applied to the last in-range value",
-    "flow contexts carry no variable of their own; a second compute() on the same element is left out (nothing is promised)",
+    "a second compute() on the same element is left out (nothing is promised)",
     "every fill runs under a step budget in hist_functions.py / split_into_bins.py (a border value must not make the bin search loop)",
 ]
 
@@ -184,6 +184,7 @@ def judge_sib(case):
     dim, edges, recipe = case["dim"], case["edges"], case["recipe"]
     flow_js = case["flow"]
     arg = make_arg(dim, case["typed"])
+    arg_snapshot = copy.deepcopy(arg.var_context)
     sib = SplitIntoBins(build_inner(recipe, case.get("bare", False)), arg, copy.deepcopy(edges))
     flow = mkflow(flow_js)
     snapshot = copy.deepcopy(flow)
@@ -253,6 +254,9 @@ def judge_sib(case):
         for k, (h2, ctx2) in enumerate(res[:j]):
             if shared_mutables(ctx, ctx2):
                 raise Violation("histogram-contexts-share-objects", descr)
+    if arg.var_context != arg_snapshot:
+        raise Violation("argument-variable-changed-by-use",
+                        "%s: the argument variable's own context became %s (was %s)" % (descr, arg.var_context, arg_snapshot))
     filled_cells = sum(1 for c in cells if sub[c])
     has_mut = any(r[0] in ("mut", "varw") for r in recipe)
     classes = ["dim:%d" % dim, "acc:" + [r[0] for r in recipe if r[0] in ("wsum", "count", "store", "store1", "uacc", "hist")][0]]
@@ -291,7 +295,11 @@ def coord(ax):
 
 
 ctxs = st.one_of(st.none(), st.dictionaries(st.sampled_from(["a", "b"]),
-                                            st.one_of(st.integers(0, 3), st.fixed_dictionaries({"k": st.integers(0, 2)})), max_size=2))
+                                            st.one_of(st.integers(0, 3), st.fixed_dictionaries({"k": st.integers(0, 2)})), max_size=2),
+                 st.dictionaries(st.sampled_from(["a", "b"]),
+                                 st.one_of(st.integers(0, 3), st.fixed_dictionaries({"k": st.integers(0, 2)})), max_size=2),
+                 # values that already went through a typed variable
+                 st.just({"variable": {"name": "e", "type": "energy", "energy": {"name": "e"}}, "a": 1}))
 
 pre_el = st.one_of(st.just(["mut"]), st.just(["getw"]), st.just(["varw"]), st.just(["filt"]),
                    st.builds(lambda k: ["slice", k], st.integers(0, 3)))
